@@ -166,6 +166,48 @@ func vfReadTimeout(t *tubes.Reliable, n int, d time.Duration) ([]byte, error) {
 	return b, err
 }
 
+// vfConfigFromFile builds the server configuration the way hopd does: a configuration file on disk, read by
+// config.LoadServerConfigFromFile.  The two switches are rendered as "true", "false" or left out (variant picks the
+// rendering of the false / irrelevant cases), so that what the administrator wrote is what the server must honour.
+func vfConfigFromFile(t *testing.T, dir string, grants bool, variant int) *config.ServerConfig {
+	keyPath, certPath := dir+"/id_hop.pem", dir+"/id_hop.cert"
+	if _, err := os.Stat(keyPath); err != nil {
+		kp := keys.GenerateNewX25519KeyPair()
+		c, err := certs.SelfSignLeaf(&certs.Identity{PublicKey: kp.Public, Names: []certs.Name{certs.DNSName("target.example")}})
+		if err != nil {
+			t.Fatal(err)
+		}
+		pb, err := certs.EncodeCertificateToPEM(c)
+		if err != nil {
+			t.Fatal(err)
+		}
+		os.WriteFile(keyPath, []byte(kp.Private.String()), 0600)
+		os.WriteFile(certPath, pb, 0600)
+	}
+	txt := fmt.Sprintf("ListenAddress = \":77\"\nKey = %q\nCertificate = %q\n", keyPath, certPath)
+	switch {
+	case grants:
+		txt += "EnableAuthgrants = true\n"
+	case variant%2 == 0:
+		txt += "EnableAuthgrants = false\n"
+	}
+	switch (variant / 2) % 3 {
+	case 0:
+		txt += "EnableAuthorizedKeys = true\n"
+	case 1:
+		txt += "EnableAuthorizedKeys = false\n"
+	}
+	path := fmt.Sprintf("%s/config-%v-%d.toml", dir, grants, variant%6)
+	if err := os.WriteFile(path, []byte(txt), 0600); err != nil {
+		t.Fatal(err)
+	}
+	c, err := config.LoadServerConfigFromFile(path)
+	if err != nil {
+		t.Fatalf("loading %s: %v", path, err)
+	}
+	return c
+}
+
 func TestVerifGrantsReplay(t *testing.T) {
 	in, out := os.Getenv("VT_IN"), os.Getenv("VT_OUT")
 	if in == "" || out == "" {
@@ -225,6 +267,7 @@ func TestVerifGrantsReplay(t *testing.T) {
 	}
 	lg := logrus.New()
 	lg.SetOutput(io.Discard)
+	cfgDir := t.TempDir()
 	sc := bufio.NewScanner(fi)
 	sc.Buffer(make([]byte, 1<<20), 1<<24)
 	for sc.Scan() {
@@ -236,7 +279,8 @@ func TestVerifGrantsReplay(t *testing.T) {
 		now = vfBase
 		clock.Unlock()
 		ks := authkeys.NewSyncAuthKeySet()
-		scfg := &config.ServerConfig{EnableAuthgrants: true}
+		variant := h.ID
+		scfg := vfConfigFromFile(t, cfgDir, true, variant)
 		s, err := NewHopServerExt(nil, scfg, ks)
 		if err != nil {
 			t.Fatal(err)
@@ -263,7 +307,11 @@ func TestVerifGrantsReplay(t *testing.T) {
 				}
 				r["err"] = fmt.Sprint(s.AddAuthGrant(in))
 			case "toggle":
-				scfg.EnableAuthgrants = op.En // the flag is read live through the configuration pointer
+				// the administrator edits the file and the server takes the new settings (the flags are read live
+				// through the configuration pointer)
+				variant++
+				nc := vfConfigFromFile(t, cfgDir, op.En, variant)
+				scfg.EnableAuthgrants, scfg.EnableAuthorizedKeys = nc.EnableAuthgrants, nc.EnableAuthorizedKeys
 			case "tick":
 				clock.Lock()
 				now = vfBase.Add(time.Duration(op.Now) * time.Minute)
@@ -294,6 +342,11 @@ func TestVerifGrantsReplay(t *testing.T) {
 			case "request":
 				vs := sessions[op.Sid-1]
 				started, detail := false, ""
+				// a connection that was refused has no session loop behind it: nothing answers, so the waits are short
+				wait := 3 * time.Second
+				if !vs.ok {
+					wait = 300 * time.Millisecond
+				}
 				switch op.Kind.Type {
 				case "shell", "cmd":
 					t1, e1 := vs.cmux.CreateReliableTube(common.ExecTube)
@@ -317,12 +370,12 @@ func TestVerifGrantsReplay(t *testing.T) {
 					msg = binary.BigEndian.AppendUint32(msg, 5)
 					msg = append(msg, "xterm"...)
 					stdin.Write(msg)
-					hd, err := vfReadTimeout(stdout, 5, 3*time.Second)
+					hd, err := vfReadTimeout(stdout, 5, wait)
 					if err != nil {
 						detail = "no status: " + err.Error()
 					} else {
 						n := int(binary.BigEndian.Uint16(hd[1:3]))
-						txt, _ := vfReadTimeout(stdout, n, 3*time.Second)
+						txt, _ := vfReadTimeout(stdout, n, wait)
 						detail = string(txt)
 						// past the grant check the next step is the user lookup, which fails here by construction
 						started = hd[0] == 1 || strings.Contains(detail, "could not find entry for user")
@@ -344,7 +397,7 @@ func TestVerifGrantsReplay(t *testing.T) {
 					msg = binary.BigEndian.AppendUint16(msg, uint16(len(addr)))
 					msg = append(msg, addr...)
 					ct.Write(msg)
-					b, err := vfReadTimeout(ct, 1, 3*time.Second)
+					b, err := vfReadTimeout(ct, 1, wait)
 					started = err == nil && b[0] == 1
 					if err != nil {
 						detail = "no answer: " + err.Error()
@@ -357,7 +410,7 @@ func TestVerifGrantsReplay(t *testing.T) {
 						detail = "tube creation failed"
 						break
 					}
-					b, err := vfReadTimeout(dt, 8, 1500*time.Millisecond)
+					b, err := vfReadTimeout(dt, 8, wait/2)
 					started = err == nil && string(b) == "PRIVATE-"
 					if err != nil {
 						detail = "no banner: " + err.Error()
@@ -371,7 +424,7 @@ func TestVerifGrantsReplay(t *testing.T) {
 					}
 					in := authgrants.Intent{GrantType: authgrants.Shell, StartTime: time.Now().Add(-time.Hour), ExpTime: time.Now().Add(time.Hour),
 						TargetSNI: certs.DNSName("target.example"), TargetUsername: vs.user, DelegateCert: *ident(fmt.Sprintf("issued-%d", len(results))).cert}
-					at.SetDeadline(time.Now().Add(3 * time.Second))
+					at.SetDeadline(time.Now().Add(wait))
 					if err := authgrants.WriteIntentCommunication(at, in); err != nil {
 						detail = "write failed: " + err.Error()
 					} else if m, err := authgrants.ReadConfOrDenial(at); err != nil {
